@@ -219,8 +219,8 @@ inline long needed_with_dimension(Seed const& s, std::string const& field, long 
 }
 inline long header_end(Seed const& s) { for (auto const& r : s.regions) if (std::string(r.name) == "header") return r.end; return -1; }
 
-enum EP { EP_INFO, EP_IMAGE_RGB8, EP_IMAGE_RGBA8, EP_IMAGE_GRAY8, EP_VIEW, EP_CONVERT_IMAGE, EP_CONVERT_VIEW, EP_SCANLINE, EP_COUNT };
-inline const char* ep_name(int e) { static const char* n[] = {"info", "read_image<rgb8>", "read_image<rgba8>", "read_image<gray8>", "read_view", "read_and_convert_image", "read_and_convert_view", "scanline"}; return n[e]; }
+enum EP { EP_INFO, EP_IMAGE_RGB8, EP_IMAGE_RGBA8, EP_IMAGE_GRAY8, EP_VIEW, EP_CONVERT_IMAGE, EP_CONVERT_VIEW, EP_SCANLINE, EP_VIEW_REGION_TOO_SMALL, EP_COUNT };
+inline const char* ep_name(int e) { static const char* n[] = {"info", "read_image<rgb8>", "read_image<rgba8>", "read_image<gray8>", "read_view", "read_and_convert_image", "read_and_convert_view", "scanline", "read_view(region,view-too-small)"}; return n[e]; }
 
 struct Obs { std::string cls; std::string data; bool na = false; bool returned() const { return cls == "ret"; } bool operator==(Obs const& o) const { return cls == o.cls && data == o.data; } };
 
@@ -283,6 +283,18 @@ Obs run_ep(int ep, int dev, ioc::Source const& src, Seed const& seed, unsigned c
                 paint_stack(fill); gil::read_and_convert_view(d, gil::view(img), Tag());
                 o.data = (declared.x == seed.w && declared.y == seed.h) ? view_digest(gil::const_view(img)) : std::string("declared-image-smaller-than-view"); break;
             }
+            case EP_VIEW_REGION_TOO_SMALL:
+            {
+                // read_view of the region top_left=(1,1), dim=(w-1,h-1) into a view that is one row shorter than the region: a view that
+                // is too small has to be reported, never written past.  The view is the top-left part of a larger image, so an overrun
+                // lands in memory the sanitizer tracks.
+                if (seed.w < 3 || seed.h < 3) { o.na = true; break; }
+                gil::image_read_settings<Tag> st(gil::point_t(1, 1), gil::point_t(seed.w - 1, seed.h - 1));
+                NativeImg img(seed.w - 1, seed.h - 2);
+                std::memset(img._memory, fill, img._allocated_bytes);
+                paint_stack(fill); gil::read_view(d, gil::view(img), st);
+                o.data = "returned-normally"; break;
+            }
             case EP_SCANLINE:
             {
                 paint_stack(fill);
@@ -339,6 +351,8 @@ void run_cases(Emit& e, Seed const& seed, std::vector<Case> const& cases, Opts c
                 Obs b = run_ep<Tag, NativeImg, DevA>(ep, dev, src, seed, 0xC3);
                 e.count(std::string("outcome:") + a.cls);
                 if (a.cls == "exc:non-std") e.fail("non-std-exception", "");
+                if (ep == EP_VIEW_REGION_TOO_SMALL && c.kind == 4 && a.returned()) e.fail("undersized-view-accepted", "read_view of a (w-1)x(h-1) region into a (w-1)x(h-2) view of the valid seed returned normally");
+                if (ep == EP_VIEW_REGION_TOO_SMALL && c.kind == 4) e.count("w:undersized_view_with_region_settings");
                 if (!(a == b)) e.fail("result-depends-on-uninitialised-bytes", a.cls + " " + a.data + " vs " + b.cls + " " + b.data);
                 // silent accept — only what the encoder's layout arithmetic proves
                 if (a.returned() && b.returned())
